@@ -805,11 +805,31 @@ def rewrite_exprs(nodes, rng):
     return out
 
 
+def respell_range_bounds(nodes, rng):
+    """Copy of the configuration with the bounds of every RANGE variable spelled as the other numeric type where the value
+    allows it (lo: -1 <-> lo: -1.0): the same range, the same swept values.  (Not for explicit value lists: there the
+    element type is part of the domain.)"""
+    out = copy.deepcopy(nodes)
+    for n in out:
+        sw = (n.get("derive") or {}).get("parameter_sweep")
+        for spec in ((sw or {}).get("variables") or {}).values():
+            if isinstance(spec, dict) and "lo" in spec and "hi" in spec:
+                for f in ("lo", "hi"):
+                    v = spec[f]
+                    if isinstance(v, bool) or rng.random() < 0.3:
+                        continue
+                    if isinstance(v, int):
+                        spec[f] = float(v)
+                    elif isinstance(v, float) and v == int(v) and abs(v) < 2 ** 53:
+                        spec[f] = int(v)
+    return out
+
+
 def cosmetic_variant(nodes, rng, kind="all", perm=None):
     """(yaml text, the object it must load to, classes of mappings actually permuted).
     kind: all | layout (flow/block, quoting, anchors/aliases, scalar spellings) | keyorder (perm = classes
     or None for every depth) | exprs (+/* operand order)."""
-    re_nodes = rewrite_exprs(nodes, rng) if kind in ("all", "exprs") else copy.deepcopy(nodes)
+    re_nodes = respell_range_bounds(rewrite_exprs(nodes, rng), rng) if kind in ("all", "exprs") else copy.deepcopy(nodes)
     if kind == "all":
         st = Style(rng)
     elif kind == "layout":
